@@ -271,7 +271,7 @@ func randBits(r *Rng) uint64 {
 }
 
 func genSF(r *Rng, tier string, n int, emit func(Case)) {
-	ops := []string{"add", "sub", "mul", "div", "mod", "floor", "ceil", "trunc", "lt", "le", "eq", "fmt", "round", "rounds"}
+	ops := []string{"add", "sub", "mul", "div", "mod", "floor", "ceil", "trunc", "lt", "le", "eq", "fmt", "round", "round"}
 	for i := 0; i < n; i++ {
 		if r.Chance(15) {
 			s := pick(r, c01StrLits)
@@ -281,7 +281,7 @@ func genSF(r *Rng, tier string, n int, emit func(Case)) {
 			if r.Chance(30) {
 				s = fmt.Sprintf("%d.%d", r.U64()%100000, r.U64())
 			}
-			emit(Case{"k": "sf", "op": pick(r, []string{"parse", "parses"}), "s": s})
+			emit(Case{"k": "sf", "op": "parse", "s": s})
 			continue
 		}
 		emit(Case{"k": "sf", "op": pick(r, ops), "a": fmt.Sprint(randBits(r)), "b": fmt.Sprint(randBits(r))})
